@@ -9,7 +9,7 @@ import numpy as np
 
 from . import dsl
 from .extract import NLP, declare, quiet
-from .sx2smt import RockitRaised, SXProgram, ConstPool, Z3Domain, RefZ3Domain, FloatDomain, PolyFloatDomain, HarnessError, Unsupported
+from .sx2smt import RockitRaised, QZ, FracZ3Domain, SXProgram, ConstPool, Z3Domain, RefZ3Domain, FloatDomain, PolyFloatDomain, HarnessError, Unsupported
 
 NPTS = 3   # fingerprint points
 
@@ -176,6 +176,11 @@ class Inst:
         if callable(extra_outputs):
             with quiet():
                 extra_outputs = extra_outputs(self.b)
+            if isinstance(extra_outputs, tuple):
+                # (outputs, extra free symbols): the symbols become additional universally quantified inputs
+                extra_outputs, extra_syms = extra_outputs
+                self.nlp.psyms = list(self.nlp.psyms) + list(extra_syms)
+                self.nlp.np += sum(s.numel() for s in extra_syms)
         self._trace(extra_outputs or [])
 
     def _trace(self, extra):
@@ -219,6 +224,16 @@ class Inst:
         for pt in self.pts:
             self.fout.append(self.prog.run(self.fdom, nlp.split(pt[0], nlp.xsyms) + nlp.split(pt[1], nlp.psyms)))
         self.t_trace = time.time() - t0
+
+    def frac_extra(self):
+        """extra outputs as rational functions n/d (second run of the same program in the fraction domain)"""
+        if not hasattr(self, '_zq'):
+            nlp = self.nlp
+            fd = FracZ3Domain(self.zdom)
+            ins = [[QZ(v) for v in grp] for grp in nlp.split(self.xv, nlp.xsyms) + nlp.split(self.pv, nlp.psyms)]
+            self._zq = self.prog.run(fd, ins)
+        nn = len(self.named.items)
+        return self._zq[4 + nn:]
 
     # ---- views ---------------------------------------------------------------------------
     def view(self, d):
